@@ -30,7 +30,8 @@ def floors(ctx):
     return {"evaluations": 5000 if q else 50000, "small_count_default_connectivity": 50,
             "hostile_stream_runs": 100, "reproducibility_checked": 500, "graphs_with_links": 1000,
             "large_count_runs": 50, "fresh_process_reproducibility_checks": 3,
-            "runs_with_an_extreme_raw_draw": 1000, "seeded_pairs_run_in_a_worker_thread": 20}
+            "runs_with_an_extreme_raw_draw": 1000, "seeded_pairs_run_in_a_worker_thread": 20,
+            "dense_mid_size_runs": 200}
 
 
 class ScriptedStream:
@@ -276,7 +277,7 @@ def run(ctx):
         for n, (count, cname, ensure) in enumerate(((15, "DirectedEdge", True), (6, "UnDirectedEdge", False), (40, "DirectedEdge", True))):
             fresh_process_reproducibility(ctx, count, cname, ensure, 2024 + n + ctx.seed)
     counts = list(range(1, 13)) if quick else list(range(1, 31)) + [40, 60]
-    nseeds = 12 if quick else 12
+    nseeds = ctx.n(12)
     base = ctx.seed * 100000 + ctx.shard * 1000
     k = 0
     for count in counts:
@@ -300,6 +301,14 @@ def run(ctx):
                     if k in (7, 300) and ctx.shard == 0:
                         ctx.sample({"count": count, "edge": cname, "connectivity": conn, "ensurelink": ensure,
                                     "seeds": [base, base + nseeds - 1], "hostile_streams": ["min", "max", "alt"]})
+    # dense graphs of a few dozen vertices: the per-vertex draw ranges over dozens of values there, so the tails of
+    # whatever distribution the neighbour count is drawn from get sampled
+    for count in ((40, 80) if quick else (20, 40, 80, 120)):
+        for conn in (1.0, 0.9):
+            for ensure in (False, True):
+                for s in range(ctx.n(25 if quick else 60)):
+                    run_seeded(ctx, count, CLASSES[s % len(CLASSES)], conn, ensure, base + 500 + s)
+                    ctx.count("dense_mid_size_runs")
     # counts around CPython's small-int cache and beyond (cheap: a handful of runs each)
     if ctx.shard == 0:
         for count in (255, 256, 257, 300, 1000):
